@@ -23,7 +23,6 @@ Notation kof := (kind_of term).
 Notation eqv := (equiv term).
 Notation sjoin := (step_join term find_tables).
 Notation vtab := (validate_table term fields_tables).
-Notation cmpt := (compat term).
 
 (* ---- slot sets ------------------------------------------------------------------------------ *)
 Lemma smem_app : forall x a b, smem x (a ++ b) = smem x a || smem x b.
@@ -113,10 +112,10 @@ Ltac destr_matches H :=
          end.
 
 (* ---- with_namespace is forced once it is forced ------------------------------------------------- *)
-Lemma step_join_nonnil : forall fr upd w joins cnt item how spec j c,
-  sjoin fr upd w joins cnt item how spec = Ok (j, c) -> is_nil j = false.
+Lemma step_join_nonnil : forall fr upd joins cnt item how spec j c,
+  sjoin fr upd joins cnt item how spec = Ok (j, c) -> is_nil j = false.
 Proof.
-  intros fr upd w joins cnt item how spec j c H. unfold step_join in H.
+  intros fr upd joins cnt item how spec j c H. unfold step_join, step_join_bt in H.
   destr_matches H; try discriminate; inversion H; subst; destruct joins; reflexivity.
 Qed.
 
@@ -130,9 +129,9 @@ Proof.
          pose proof (step_writes _ _ _ _ _ _ _ _ _ _ _ _ _ s t H S_update_table eq_refl) as Eu;
          simpl in Ej, Ef, Eu; unfold forced in *; rewrite <- Ej, <- Ef, <- Eu; exact F).
   cbn [step] in H. unfold bind in H.
-  destruct (sjoin (q_from term s) (q_update_table term s) (q_with term s) (q_joins term s)
+  destruct (sjoin (q_from term s) (q_update_table term s) (q_joins term s)
                   (q_subquery_count term s) item how spec) as [[j c']|e] eqn:E; [|discriminate].
-  inversion H. unfold forced. simpl. rewrite (step_join_nonnil _ _ _ _ _ _ _ _ _ _ E). reflexivity.
+  inversion H. unfold forced. simpl. rewrite (step_join_nonnil _ _ _ _ _ _ _ _ _ E). reflexivity.
 Qed.
 
 (* ---- equivalence is preserved by every later clause-adding call ---------------------------------- *)
@@ -246,23 +245,23 @@ Proof.
   - destruct (is_empty x) eqn:Ex.
     + inversion H1; subst. exists b, b. split; [exact H2|]. split; [cbn [step]; try rewrite Ex; reflexivity|apply equiv_refl].
     + inversion H1; subst; clear H1. cbn [step] in H2. simpl in H2. unfold bind in H2.
-      destruct (sjoin (q_from term s) (q_update_table term s) (q_with term s) (q_joins term s)
+      destruct (sjoin (q_from term s) (q_update_table term s) (q_joins term s)
                       (q_subquery_count term s) item how spec) as [[j c']|e] eqn:E; [|discriminate].
       inversion H2; subst; clear H2.
       eexists. eexists. split; [cbn [step]; rewrite E; reflexivity|].
       split; [cbn [step]; try rewrite Ex; reflexivity|].
       apply equiv_joined.
       * intros y Hy. destruct y; simpl in *; try discriminate; reflexivity.
-      * simpl. exact (step_join_nonnil _ _ _ _ _ _ _ _ _ _ E).
+      * simpl. exact (step_join_nonnil _ _ _ _ _ _ _ _ _ E).
   - inversion H1; subst; clear H1. cbn [step] in H2. simpl in H2. unfold bind in H2.
-    destruct (sjoin (q_from term s) (q_update_table term s) (q_with term s) (q_joins term s)
+    destruct (sjoin (q_from term s) (q_update_table term s) (q_joins term s)
                     (q_subquery_count term s) item how spec) as [[j c']|e] eqn:E; [|discriminate].
     inversion H2; subst; clear H2.
     eexists. eexists. split; [cbn [step]; rewrite E; reflexivity|].
     split; [cbn [step]; reflexivity|].
     apply equiv_joined.
     + intros y Hy. destruct y; simpl in *; try discriminate; reflexivity.
-    + simpl. exact (step_join_nonnil _ _ _ _ _ _ _ _ _ _ E).
+    + simpl. exact (step_join_nonnil _ _ _ _ _ _ _ _ _ E).
 Qed.
 
 Lemma swap_join_filter : forall s c item how spec a b,
@@ -272,7 +271,7 @@ Lemma swap_join_filter : forall s c item how spec a b,
 Proof.
   intros s c item how spec a b Hc H1 H2.
   cbn [step] in H1. unfold bind in H1.
-  destruct (sjoin (q_from term s) (q_update_table term s) (q_with term s) (q_joins term s)
+  destruct (sjoin (q_from term s) (q_update_table term s) (q_joins term s)
                   (q_subquery_count term s) item how spec) as [[j c']|e] eqn:E; [|discriminate].
   inversion H1; subst; clear H1.
   destruct Hc as [[x ->]|[x ->]]; cbn [step] in H2.
@@ -283,116 +282,62 @@ Proof.
       split; [cbn [step]; simpl; rewrite E; reflexivity|].
       apply equiv_joined.
       * intros y Hy. destruct y; simpl in *; try discriminate; reflexivity.
-      * simpl. exact (step_join_nonnil _ _ _ _ _ _ _ _ _ _ E).
+      * simpl. exact (step_join_nonnil _ _ _ _ _ _ _ _ _ E).
   - inversion H2; subst; clear H2. eexists. eexists. split; [cbn [step]; reflexivity|].
     split; [cbn [step]; simpl; rewrite E; reflexivity|].
     apply equiv_joined.
     + intros y Hy. destruct y; simpl in *; try discriminate; reflexivity.
-    + simpl. exact (step_join_nonnil _ _ _ _ _ _ _ _ _ _ E).
+    + simpl. exact (step_join_nonnil _ _ _ _ _ _ _ _ _ E).
 Qed.
 
-(* ---- with_ against join: JoinOn.validate reads _with; on the fragment the new name is not consulted ---- *)
-Lemma ostr_eqb_sym : forall a b, ostr_eqb a b = ostr_eqb b a.
-Proof. destruct a, b; simpl; try reflexivity. apply String.eqb_sym. Qed.
-Lemma tbl_eqb_sym : forall a b, tbl_eqb a b = tbl_eqb b a.
-Proof.
-  destruct a, b; simpl; try reflexivity.
-  - rewrite String.eqb_sym, ostr_eqb_sym. reflexivity.
-  - apply String.eqb_sym.
-  - apply ostr_eqb_sym.
-Qed.
-Lemma otbl_eqb_sym : forall a b, otbl_eqb a b = otbl_eqb b a.
-Proof. destruct a, b; simpl; try reflexivity. apply tbl_eqb_sym. Qed.
-
+(* ---- do_join as written reads _with, but its result does not depend on it -------------------------------------- *)
 Lemma omem_app : forall x a b, omem x (a ++ b) = omem x a || omem x b.
 Proof. induction a; simpl; intros; [reflexivity|]. rewrite IHa. apply orb_assoc. Qed.
 
-Lemma base_tables_with : forall fr upd w n (body : term),
-  base_tables term fr upd (w ++ [(n, body)]) = base_tables term fr upd w ++ [Some (Wq n)].
-Proof. intros. unfold base_tables. rewrite map_app. simpl. rewrite <- app_assoc. reflexivity. Qed.
-
-Lemma omem_snoc : forall x l y, omem x (l ++ [y]) = omem x l || otbl_eqb x y.
-Proof. intros. rewrite omem_app. cbn [omem]. rewrite orb_false_r. reflexivity. Qed.
-
-Lemma taken_names_with : forall p bt joins n, p n = false ->
-  filter p (taken_names term (bt ++ [Some (Wq n)]) joins) = filter p (taken_names term bt joins).
+Lemma omem_wq : forall ft (w : list (string * term)),
+  match ft with Some (Wq _) => False | _ => True end ->
+  omem ft (map (fun x => Some (Wq (fst x))) w) = false.
 Proof.
-  intros p bt joins n Hp. unfold taken_names. rewrite !flat_map_app, !filter_app. simpl. rewrite Hp, app_nil_r. reflexivity.
+  intros ft w H. induction w as [|x w IH]; [reflexivity|]. simpl. rewrite IH.
+  destruct ft as [[m al|m|al id]|]; try reflexivity. contradiction.
 Qed.
 
-Lemma auto_alias_with : forall bt joins n item,
-  match item with Tab m None => String.prefix m n = false | _ => True end ->
-  auto_alias term (bt ++ [Some (Wq n)]) joins item = auto_alias term bt joins item.
+Lemma join_valid_code : forall bt (w : list (string * term)) joins item tabs,
+  join_valid term (bt ++ map (fun x => Some (Wq (fst x))) w) joins item tabs = join_valid term bt joins item tabs.
 Proof.
-  intros bt joins n item H. destruct item as [m [al|]| |]; try reflexivity.
-  unfold auto_alias. rewrite omem_snoc. simpl otbl_eqb. rewrite orb_false_r.
-  unfold first_free. rewrite (taken_names_with _ bt joins n H). reflexivity.
-Qed.
-
-Lemma join_valid_with : forall bt joins item n tabs,
-  join_valid term (bt ++ [Some (Wq n)]) joins item tabs = join_valid term bt joins item tabs.
-Proof.
-  intros bt joins item n tabs. unfold join_valid. induction tabs as [|ft r IH]; [reflexivity|].
+  intros bt w joins item tabs. unfold join_valid. induction tabs as [|ft r IH]; [reflexivity|].
   cbn [forallb]. rewrite IH. f_equal. destruct ft as [[m al|m|al id]|]; try reflexivity;
-    rewrite omem_snoc; simpl otbl_eqb; rewrite orb_false_r; reflexivity.
+    rewrite omem_app, omem_wq by exact I; rewrite orb_false_r; reflexivity.
 Qed.
 
-Lemma step_join_with : forall fr upd w joins cnt item how spec n body,
-  cmpt (CJoin term item how spec) (CWith term n body) = true ->
-  sjoin fr upd (w ++ [(n, body)]) joins cnt item how spec = sjoin fr upd w joins cnt item how spec.
+Lemma auto_alias_code : forall bt tb (w : list (string * term)) joins item,
+  auto_alias term (bt ++ map (fun x => Some (Wq (fst x))) w) tb joins item = auto_alias term bt tb joins item.
 Proof.
-  intros fr upd w joins cnt item how spec n body Hc.
-  unfold step_join. destruct (tag_item cnt item) as [item1 cnt1] eqn:Ht.
-  rewrite base_tables_with.
-  assert (Ha : auto_alias term (base_tables term fr upd w ++ [Some (Wq n)]) joins item1
-               = auto_alias term (base_tables term fr upd w) joins item1).
-  { apply auto_alias_with. destruct item as [m [al|]| |[al|] id]; simpl in Ht; inversion Ht; subst; try exact I.
-    simpl in Hc. apply negb_true_iff in Hc. exact Hc. }
-  destruct spec; try rewrite Ha; try reflexivity. rewrite join_valid_with. reflexivity.
+  intros bt tb w joins item. destruct item as [m [al|]| |]; try reflexivity.
+  unfold auto_alias. rewrite omem_app, omem_wq by exact I. rewrite orb_false_r. reflexivity.
 Qed.
 
-Lemma swap_with_join : forall s n body item how spec a b,
-  cmpt (CJoin term item how spec) (CWith term n body) = true ->
-  stp s (CWith term n body) = Ok a -> stp a (CJoin term item how spec) = Ok b ->
-  exists a', stp s (CJoin term item how spec) = Ok a' /\ stp a' (CWith term n body) = Ok b.
+Theorem step_join_code_eq : forall fr upd w joins cnt item how spec,
+  step_join_code term find_tables fr upd w joins cnt item how spec = sjoin fr upd joins cnt item how spec.
 Proof.
-  intros s n body item how spec a b Hc H1 H2. cbn [step] in H1. inversion H1; subst; clear H1.
-  cbn [step] in H2. simpl in H2. rewrite (step_join_with _ _ _ _ _ _ _ _ _ _ Hc) in H2. unfold bind in H2.
-  destruct (sjoin (q_from term s) (q_update_table term s) (q_with term s) (q_joins term s)
-                  (q_subquery_count term s) item how spec) as [[j c']|e] eqn:E; [|discriminate].
-  inversion H2; subst; clear H2.
-  eexists. split; [cbn [step]; rewrite E; reflexivity|]. reflexivity.
-Qed.
-
-Lemma swap_join_with : forall s n body item how spec a b,
-  cmpt (CJoin term item how spec) (CWith term n body) = true ->
-  stp s (CJoin term item how spec) = Ok a -> stp a (CWith term n body) = Ok b ->
-  exists a', stp s (CWith term n body) = Ok a' /\ stp a' (CJoin term item how spec) = Ok b.
-Proof.
-  intros s n body item how spec a b Hc H1 H2. cbn [step] in H1. unfold bind in H1.
-  destruct (sjoin (q_from term s) (q_update_table term s) (q_with term s) (q_joins term s)
-                  (q_subquery_count term s) item how spec) as [[j c']|e] eqn:E; [|discriminate].
-  inversion H1; subst; clear H1. cbn [step] in H2. inversion H2; subst; clear H2.
-  eexists. split; [reflexivity|]. cbn [step]. simpl. rewrite (step_join_with _ _ _ _ _ _ _ _ _ _ Hc), E. reflexivity.
+  intros. unfold step_join_code, step_join, step_join_bt, base_tables_code.
+  destruct (tag_item cnt item) as [item1 cnt1].
+  destruct spec; rewrite ?auto_alias_code, ?join_valid_code; reflexivity.
 Qed.
 
 (* ---- two adjacent successful calls of different kinds commute up to render-equivalence --------------- *)
 Theorem swap_adjacent : forall s c1 c2 a b,
   commuting (kof c1) = true -> commuting (kof c2) = true -> kind_eqb (kof c1) (kof c2) = false ->
-  cmpt c1 c2 = true -> cmpt c2 c1 = true ->
   stp s c1 = Ok a -> stp a c2 = Ok b ->
   exists a' b', stp s c2 = Ok a' /\ stp a' c1 = Ok b' /\ eqv b b'.
 Proof.
-  intros s c1 c2 a b K1 K2 Kd C12 C21 H1 H2.
+  intros s c1 c2 a b K1 K2 Kd H1 H2.
   destruct (footprint_cases _ _ K1 K2 Kd) as [Hi|Hs].
   - destruct (commute_independent c1 c2 s a b Hi H1 H2) as [a' [Ha Hb]].
     exists a', b. split; [exact Ha|]. split; [exact Hb|apply equiv_refl].
   - destruct c1; simpl in Hs; try discriminate; destruct c2; simpl in Hs; try discriminate.
     + (* join, where *) eapply swap_join_filter; eauto.
     + (* join, prewhere *) eapply swap_join_filter; eauto.
-    + (* join, with *)
-      destruct (swap_join_with _ _ _ _ _ _ _ _ C12 H1 H2) as [a' [Ha Hb]].
-      exists a', b. split; [exact Ha|]. split; [exact Hb|apply equiv_refl].
     + (* where, join *) eapply swap_filter_join; eauto.
     + (* where, prewhere *)
       destruct (swap_where_prewhere _ _ _ _ _ H1 H2) as [a' [Ha Hb]].
@@ -400,9 +345,6 @@ Proof.
     + (* prewhere, join *) eapply swap_filter_join; eauto.
     + (* prewhere, where *)
       destruct (swap_prewhere_where _ _ _ _ _ H1 H2) as [a' [Ha Hb]].
-      exists a', b. split; [exact Ha|]. split; [exact Hb|apply equiv_refl].
-    + (* with, join *)
-      destruct (swap_with_join _ _ _ _ _ _ _ _ C21 H1 H2) as [a' [Ha Hb]].
       exists a', b. split; [exact Ha|]. split; [exact Hb|apply equiv_refl].
 Qed.
 
@@ -482,11 +424,6 @@ Proof.
   intros x Hx. apply Ha. apply (kperm_in _ _ H). exact Hx.
 Qed.
 
-Lemma fragment_kperm : forall a b, kperm a b -> fragment term a -> fragment term b.
-Proof.
-  intros a b H Ha c1 c2 H1 H2. apply Ha; apply (kperm_in _ _ H); assumption.
-Qed.
-
 (* ---- running lists of calls -------------------------------------------------------------------------- *)
 Lemma run_app : forall l1 l2 s, rn s (l1 ++ l2) = bind (rn s l1) (fun m => rn m l2).
 Proof.
@@ -509,40 +446,33 @@ Qed.
 Lemma all_commuting_app : forall a b, all_commuting term (a ++ b) = all_commuting term a && all_commuting term b.
 Proof. intros. unfold all_commuting. apply forallb_app. Qed.
 
-Lemma run_kperm : forall l1 l2, kperm l1 l2 -> all_commuting term l1 = true -> fragment term l1 ->
+Lemma run_kperm : forall l1 l2, kperm l1 l2 -> all_commuting term l1 = true ->
   forall s q1, rn s l1 = Ok q1 -> exists q2, rn s l2 = Ok q2 /\ eqv q1 q2.
 Proof.
-  intros l1 l2 H. induction H; intros Hc Hf s q1 Hr.
+  intros l1 l2 H. induction H; intros Hc s q1 Hr.
   - exists q1. split; [exact Hr|apply equiv_refl].
   - rewrite all_commuting_app in Hc. apply andb_true_iff in Hc. destruct Hc as [_ Hc].
     simpl in Hc. apply andb_true_iff in Hc. destruct Hc as [K1 Hc]. apply andb_true_iff in Hc. destruct Hc as [K2 Hc].
     rewrite run_app in Hr. destruct (rn s l1) as [m|e] eqn:Hm; [|discriminate]. simpl in Hr.
     destruct (stp m c1) as [a|e] eqn:Ha; [|discriminate]. simpl in Hr.
     destruct (stp a c2) as [b|e] eqn:Hb; [|discriminate]. simpl in Hr.
-    assert (C12 : cmpt c1 c2 = true) by (apply Hf; rewrite in_app_iff; simpl; tauto).
-    assert (C21 : cmpt c2 c1 = true) by (apply Hf; rewrite in_app_iff; simpl; tauto).
-    destruct (swap_adjacent m c1 c2 a b K1 K2 H C12 C21 Ha Hb) as (a' & b' & Ha' & Hb' & Eb).
+    destruct (swap_adjacent m c1 c2 a b K1 K2 H Ha Hb) as (a' & b' & Ha' & Hb' & Eb).
     destruct (run_equiv l2 b b' q1 Hc Eb Hr) as [q2 [Hq2 Eq]].
     exists q2. split; [|exact Eq]. rewrite run_app, Hm. simpl. rewrite Ha'. simpl. rewrite Hb'. simpl. exact Hq2.
-  - destruct (IHkperm1 Hc Hf s q1 Hr) as [q2 [H2 E2]].
-    destruct (IHkperm2 (all_commuting_kperm _ _ H Hc) (fragment_kperm _ _ H Hf) s q2 H2) as [q3 [H3 E3]].
+  - destruct (IHkperm1 Hc s q1 Hr) as [q2 [H2 E2]].
+    destruct (IHkperm2 (all_commuting_kperm _ _ H Hc) s q2 H2) as [q3 [H3 E3]].
     exists q3. split; [exact H3|]. eapply equiv_trans; eauto.
 Qed.
 
 (* any interleaving that keeps the relative order of the calls of every kind *)
 Theorem interleaving_commutes : forall s0 l1 l2,
-  all_commuting term l1 = true -> fragment term l1 -> same_kind_order term l1 l2 ->
+  all_commuting term l1 = true -> same_kind_order term l1 l2 ->
   forall q1, rn s0 l1 = Ok q1 -> exists q2, rn s0 l2 = Ok q2 /\ eqv q1 q2.
 Proof.
-  intros s0 l1 l2 Hc Hf Hk q1 Hr.
-  exact (run_kperm l1 l2 (same_kind_order_kperm l1 l2 Hk) Hc Hf s0 q1 Hr).
+  intros s0 l1 l2 Hc Hk q1 Hr.
+  exact (run_kperm l1 l2 (same_kind_order_kperm l1 l2 Hk) Hc s0 q1 Hr).
 Qed.
 
-Lemma fragmentb_spec : forall l, fragmentb term l = true -> fragment term l.
-Proof.
-  intros l H c1 c2 H1 H2. unfold fragmentb in H. rewrite forallb_forall in H.
-  specialize (H c1 H1). rewrite forallb_forall in H. exact (H c2 H2).
-Qed.
 
 (* ---- repeated calls accumulate in call order --------------------------------------------------------------- *)
 Lemma run_fold : forall (A : Type) (P : qstate term -> A) (U : A -> call term -> A),
